@@ -6,7 +6,15 @@
    executes it call by call, step by step.  Observers are identified by their
    interval: positive n -> called once at step 0 and after every step that
    is a multiple of n; negative -n -> called exactly once, after step n.
-   The default logger writes its header once, before its first row.       *)
+   The default logger (if the driver was given a log file) writes its header
+   once, before its first row.
+
+   A plan may also contain "rebuild": between two calls the simulation is
+   serialized, rebuilt from the dictionary (to_dict -> from_dict, the restart
+   path) and the same files and observers are attached to the new object.  The
+   rebuilt object is fresh (max_steps = 0, no "initial observers called" flag)
+   but knows its step count: the next call still performs exactly the requested
+   number of steps and step 0 is not observed again.                       *)
 EXTENDS Integers, Sequences, FiniteSets, TLC, Json, IOUtils, SequencesExt
 
 OutFile == IF "DRV_OUT" \in DOMAIN IOEnv THEN IOEnv.DRV_OUT ELSE ""
@@ -25,18 +33,24 @@ Plans(k, total) ==
 RECURSIVE Total(_)
 Total(p) == IF Len(p) = 0 THEN 0 ELSE Head(p).n + Total(Tail(p))
 
+\* plans with one rebuild inserted after a prefix that has performed at least one step
+WithRebuild(p) == {SubSeq(p, 1, k) \o <<[n |-> 0, entry |-> "rebuild"]>> \o SubSeq(p, k + 1, Len(p)) :
+                     k \in {j \in 1..(Len(p) - 1) : Total(SubSeq(p, 1, j)) > 0}}
+AllPlans == LET base == {q \in Plans(3, MaxTotal) : Len(q) >= 1}
+            IN base \cup UNION {WithRebuild(q) : q \in base}
+
 Due(interval, s) == \/ (interval > 0 /\ s % interval = 0)
                     \/ (interval < 0 /\ s = -interval)
 
 \* the schedule: which steps an observer is called at, in a simulation that has performed n steps
 Expected(interval, n) == SelectSeq([i \in 1..(n + 1) |-> i - 1], LAMBDA s : Due(interval, s))
 
-VARIABLES plan, obs, pc, stepCount, maxSteps, started, header, calls, rowsBeforeHeader, performed
+VARIABLES plan, obs, pc, stepCount, maxSteps, started, header, calls, rowsBeforeHeader, performed, requested, hasLog
 
-vars == <<plan, obs, pc, stepCount, maxSteps, started, header, calls, rowsBeforeHeader, performed>>
+vars == <<plan, obs, pc, stepCount, maxSteps, started, header, calls, rowsBeforeHeader, performed, requested, hasLog>>
 
-Init == /\ plan \in {p \in Plans(3, MaxTotal) : Len(p) >= 1}
-        /\ obs \in ObsSets
+Init == /\ plan \in AllPlans
+        /\ obs \in ObsSets /\ hasLog \in BOOLEAN /\ requested = 0
         /\ pc = "idle" /\ stepCount = 0 /\ maxSteps = 0 /\ started = FALSE
         /\ header = 0 /\ rowsBeforeHeader = FALSE /\ performed = 0
         /\ calls = [i \in obs |-> <<>>]
@@ -45,16 +59,24 @@ CallObservers(s, c) == [i \in obs |-> IF Due(i, s) THEN Append(c[i], s) ELSE c[i
 
 \* irun(n): on the very first call of a fresh simulation write the header and call the observers for step 0
 Begin ==
-    /\ pc = "idle" /\ Len(plan) > 0
+    /\ pc = "idle" /\ Len(plan) > 0 /\ Head(plan).entry # "rebuild"
     /\ maxSteps' = stepCount + Head(plan).n
+    /\ requested' = requested + Head(plan).n
     /\ IF stepCount = 0 /\ ~started
-       THEN /\ header' = header + 1
+       THEN /\ header' = IF hasLog THEN header + 1 ELSE header
             /\ rowsBeforeHeader' = (rowsBeforeHeader \/ \E i \in obs : Len(calls[i]) > 0)
             /\ calls' = CallObservers(0, calls)
             /\ started' = TRUE
        ELSE UNCHANGED <<header, rowsBeforeHeader, calls, started>>
     /\ pc' = "running"
-    /\ UNCHANGED <<plan, obs, stepCount, performed>>
+    /\ UNCHANGED <<plan, obs, stepCount, performed, hasLog>>
+
+\* to_dict -> from_dict: a new object with the old step count
+Rebuild ==
+    /\ pc = "idle" /\ Len(plan) > 0 /\ Head(plan).entry = "rebuild"
+    /\ maxSteps' = 0 /\ started' = FALSE
+    /\ plan' = Tail(plan)
+    /\ UNCHANGED <<obs, pc, stepCount, header, calls, rowsBeforeHeader, performed, requested, hasLog>>
 
 \* one step, then the observers that are due
 StepOnce ==
@@ -62,30 +84,30 @@ StepOnce ==
     /\ stepCount' = stepCount + 1
     /\ performed' = performed + 1
     /\ calls' = CallObservers(stepCount + 1, calls)
-    /\ UNCHANGED <<plan, obs, pc, maxSteps, started, header, rowsBeforeHeader>>
+    /\ UNCHANGED <<plan, obs, pc, maxSteps, started, header, rowsBeforeHeader, requested, hasLog>>
 
 End ==
     /\ pc = "running" /\ stepCount >= maxSteps
     /\ plan' = Tail(plan) /\ pc' = "idle"
-    /\ UNCHANGED <<obs, stepCount, maxSteps, started, header, calls, rowsBeforeHeader, performed>>
+    /\ UNCHANGED <<obs, stepCount, maxSteps, started, header, calls, rowsBeforeHeader, performed, requested, hasLog>>
 
-Next == Begin \/ StepOnce \/ End
+Next == Begin \/ StepOnce \/ End \/ Rebuild
 Spec == Init /\ [][Next]_vars
 
 Quiescent == pc = "idle" /\ Len(plan) = 0
 
 (* ---- properties ------------------------------------------------------------ *)
 C15_Schedule   == Quiescent => \A i \in obs : calls[i] = Expected(i, stepCount)
-C15_HeaderOnce == Quiescent => (header = 1 /\ ~rowsBeforeHeader)
-C15_ExactSteps == Quiescent => performed = stepCount
+C15_HeaderOnce == Quiescent => (header = (IF hasLog THEN 1 ELSE 0) /\ ~rowsBeforeHeader)
+C15_ExactSteps == (pc = "idle") => (performed = requested /\ stepCount = requested)   \* every call performs exactly the requested number
 C15_NeverTwice == \A i \in obs : \A a, b \in 1..Len(calls[i]) : a # b => calls[i][a] # calls[i][b]
 C15_SplitInvariant ==      \* the outcome depends on the total only, not on how it was cut
     Quiescent => \A i \in obs : calls[i] = Expected(i, performed)
 
 (* ---- export ------------------------------------------------------------------ *)
-Cases == {[plan |-> p, obs |-> SetToSortSeq(o, <), total |-> Total(p),
+Cases == {[plan |-> p, obs |-> SetToSortSeq(o, <), total |-> Total(p), log |-> b,
            expected |-> [i \in 1..Cardinality(o) |-> Expected(SetToSortSeq(o, <)[i], Total(p))]]
-          : p \in {q \in Plans(3, MaxTotal) : Len(q) >= 1}, o \in ObsSets}
+          : p \in AllPlans, o \in ObsSets, b \in BOOLEAN}
 Export ==
     IF TLCGet("stats").distinct < 0 \/ OutFile = "" THEN TRUE
     ELSE ndJsonSerialize(OutFile, SetToSeq(Cases))
